@@ -433,6 +433,7 @@ pub fn gen_proxy(seed: u64, prop: &str, tier: &str) -> Value {
     // the client batches), some a jumping wall clock, some a disk that refuses log writes
     let upstream_faults = r.chance(1, 3);
     let clock_jumps = r.chance(1, 6);
+    let rotate_under_load = matches!(prop, "C04" | "C05" | "C14") && r.chance(1, 3);
     for ph in 0..nphases {
         let doc = match prop {
             // properties that need a latched key most of the time
@@ -484,7 +485,18 @@ pub fn gen_proxy(seed: u64, prop: &str, tier: &str) -> Value {
                 }
             }
         }
-        steps.push(json!({"t": "clients", "conns": conns}));
+        if rotate_under_load && r.chance(1, 2) {
+            // the host rotates or withdraws the key while requests (some from slow clients) are in flight
+            let mut during = Vec::new();
+            let mut t = r.below(800);
+            for _ in 0..1 + r.below(3) {
+                during.push(json!({"after_ms": t, "do": {"t": "host_latch", "mode": *r.pick(&["new", "rotate_with_file", "new", "none"])}}));
+                t += 100 + r.below(6000);
+            }
+            steps.push(json!({"t": "clients_with", "conns": conns, "during": during}));
+        } else {
+            steps.push(json!({"t": "clients", "conns": conns}));
+        }
         if upstream_faults {
             steps.push(json!({"t": "clear_faults"}));
         }
@@ -494,6 +506,9 @@ pub fn gen_proxy(seed: u64, prop: &str, tier: &str) -> Value {
     }
     if prop == "C01" && r.chance(1, 5) {
         return gen_port_scarce(seed, &mut r, procs, tier);
+    }
+    if prop == "C03" && r.chance(1, 4) {
+        return gen_c03_unsettled(seed, &mut r, procs, tier);
     }
     if prop == "C02" {
         return gen_c02(seed, &mut r, procs, o, dup_names, tier);
@@ -525,8 +540,67 @@ pub fn gen_proxy(seed: u64, prop: &str, tier: &str) -> Value {
     json!({
         "scenario": format!("proxy:{}", prop), "seed": seed, "family": "proxy", "prop": prop, "disk_faults": disk_faults,
         "knobs": knobs, "procs": procs, "users": users_json(), "steps": steps, "oracles": oracles,
-        "config": {"pollKeyStatusIntervalInSeconds": 1 + r.below(15)}, "settle_ms": 3000,
-        "faulty": false
+        "config": {"pollKeyStatusIntervalInSeconds": if rotate_under_load { 1 } else { 1 + r.below(15) }}, "settle_ms": 3000,
+        "faulty": false, "rotating": rotate_under_load
+    })
+}
+
+/// Root-only endpoints while the agent has not settled: requests arrive right after start, before the first status poll
+/// has completed (the host stalls or fails it), and again right after a provisioning query has reset the key keeper to
+/// "unknown". Whatever the agent knows or does not know about the channel, a non-elevated caller never reaches
+/// WireServer / HostGAPlugin and nothing recorded for the proxy's own address is relayed.
+fn gen_c03_unsettled(seed: u64, r: &mut Rng, procs: Value, tier: &str) -> Value {
+    let nprocs = procs.as_array().unwrap().len() as u64;
+    let mut steps = Vec::new();
+    let mut tokn = 0u64;
+    let batch = |r: &mut Rng, tokn: &mut u64| -> Value {
+        let mut conns = Vec::new();
+        for _ in 0..2 + r.below(4) {
+            let dst = *r.pick(&["wire", "ga", "wire", "ga", "self", "imds"]);
+            let mut reqs = Vec::new();
+            for _ in 0..1 + r.below(3) {
+                *tokn += 1;
+                let mut q = json!({"method": *r.pick(&["GET", "GET", "POST"]), "target": format!("{}?n={}", r.pick(&["/machine", "/vmSettings", "/metadata/instance"]), tokn), "headers": [["Host", host_name_of(dst)], ["Metadata", "true"]], "tok": format!("t{}", tokn)});
+                if q["method"] == "POST" {
+                    q["body"] = json!({"len": 1 + r.below(500), "seed": r.next() >> 8, "ascii": true});
+                }
+                reqs.push(q);
+            }
+            conns.push(json!({"proc": r.below(nprocs), "dst": dst, "start_ms": r.below(400), "pipeline": false, "gap_ms": r.below(300), "reqs": reqs}));
+        }
+        json!({"t": "clients", "conns": conns})
+    };
+    let slow_status = |r: &mut Rng, steps: &mut Vec<Value>| {
+        for _ in 0..1 + r.below(4) {
+            let f = match r.below(3) {
+                0 => json!({"f": "stall", "ms": 1000 + r.below(20_000)}),
+                1 => json!({"f": "status", "status": 503}),
+                _ => json!({"f": "reset_before"}),
+            };
+            steps.push(json!({"t": "host_fault", "kind": *r.pick(&["status", "status", "acquire", "attest"]), "fault": f}));
+        }
+    };
+    // right after start
+    slow_status(r, &mut steps);
+    steps.push(batch(r, &mut tokn));
+    steps.push(json!({"t": "drain_faults", "max_s": 120}));
+    steps.push(json!({"t": "wait_polls", "n": 2, "max_s": 300}));
+    // after a reset: the channel is reported disabled, a provisioning query with the notify header arrives
+    let rounds = 1 + r.below(if tier == "thorough" { 4 } else { 2 });
+    for k in 0..rounds {
+        steps.push(json!({"t": "doc", "doc": if r.chance(2, 3) { doc_v1("disabled") } else { doc_v2(false, Some(json!({}))) }}));
+        steps.push(json!({"t": "wait_polls", "n": 2, "max_s": 300}));
+        slow_status(r, &mut steps);
+        steps.push(json!({"t": "clients", "conns": [{"proc": 0, "dst": "direct", "start_ms": 0, "reqs": [{"method": "GET", "target": "/provision", "headers": [["Host", "127.0.0.1:3080"], ["Metadata", "true"], ["x-ms-azure-time_tick", "99999999999999999999999999"], ["x-ms-azure-notify", "true"]], "tok": format!("pv{}", k)}]}]}));
+        steps.push(batch(r, &mut tokn));
+        steps.push(json!({"t": "drain_faults", "max_s": 120}));
+    }
+    let knobs = gen_knobs(r, false);
+    json!({
+        "scenario": "proxy:C03", "seed": seed, "family": "proxy", "prop": "C03", "variant": "unsettled",
+        "knobs": knobs, "procs": procs, "users": users_json(), "steps": steps, "oracles": ["C03"],
+        "initial_doc": if r.chance(1, 2) { doc_v1("wireserver") } else { doc_v1("disabled") },
+        "config": {"pollKeyStatusIntervalInSeconds": 1 + r.below(10)}, "settle_ms": 3000, "faulty": false
     })
 }
 
@@ -991,12 +1065,20 @@ fn gen_c15(seed: u64, r: &mut Rng, procs: Value, tier: &str) -> Value {
                 if len > 0 && r.chance(1, 5) {
                     q["slow"] = gen_slow(r);
                 }
-                // the 100 MiB class: in the thorough tier a few runs move the whole body
-                if exempt && tier == "thorough" && !any_huge && r.chance(1, 12) {
-                    let big = *r.pick(&[LARGE, LARGE + 1, LARGE - 1]);
+                // the 100 MiB class: a few runs move the whole body (every 12th exempt upload in the thorough tier, every
+                // 30th in the quick tier)
+                if exempt && !any_huge && r.chance(1, if tier == "thorough" { 10 } else { 16 }) {
+                    let big = *r.pick(&[LARGE, LARGE + 1, LARGE - 1, LARGE + 4096, LARGE + 1]);
                     q["body"]["len"] = json!(big);
-                    q["chunks"] = if r.chance(1, 2) { json!([65536]) } else { Value::Null };
+                    q["chunks"] = if r.chance(2, 3) { json!([65536]) } else { Value::Null };
+                    q["slow"] = Value::Null;
                     any_huge = true;
+                    // ... half of them on a client connection whose upstream connection the host has just closed
+                    if r.chance(1, 2) {
+                        tokn += 1;
+                        reqs.push(json!({"method": "GET", "target": "/metadata/instance?warmup=1", "headers": [["Host", host_name_of(dst)], ["x-ms-version", "2012-11-30"]], "tok": format!("t{}", tokn),
+                            "resp": {"status": 200, "headers": [["Content-Type", "text/plain"]], "body": {"len": 10, "seed": 1, "ascii": true}, "close_after": true}}));
+                    }
                 }
                 reqs.push(q);
                 let over = len > if exempt { LARGE } else { LOW };
